@@ -75,6 +75,8 @@ KV_PURE = ["span", "mult", "valid", "split", "__add__", "__sub__", "__mul__", "_
            "__and__", "__eq__", "__copy__", "__deepcopy__"]
 KV_SETTERS = ["degree"]
 STATIC_PURE = {
+    "heavy": {"NodeSample": ["closed_linspace", "open_linspace", "chebyshev", "gauss_legendre"],
+              "IntegratorArray": ["closed_newton_cotes", "open_newton_cotes", "chebyshev", "gauss_legendre"]},
     "calculus": {"Derivate": ["__new__", "curve"], "Integrate": ["scalar", "lenght", "density", "function"]},
     "advanced": {"Projection": ["point_on_curve", "point_on_bezier"], "Intersection": ["curve_and_curve", "bcurve_and_bcurve"]},
 }
